@@ -28,6 +28,9 @@ pub static FAIL_ERRNO: AtomicI32 = AtomicI32::new(0);
 /// CUT_SEL is even and the buffer has one), return the short count, and fail the NEXT mutating call
 /// with FAIL_ERRNO - the way a full disk looks to write_all
 pub static FAIL_SHORT: AtomicBool = AtomicBool::new(false);
+/// with FAIL_SHORT: the call after the short write is NOT failed - a short count is all that
+/// happens (a signal, a file-size limit about to be lifted); correct callers simply write the rest
+pub static FAIL_SHORT_NO_ERROR: AtomicBool = AtomicBool::new(false);
 /// 0 = model a (everything persists), 1 = model b lose-all, 2 = model b torn (cut selector)
 pub static MODE_B: AtomicU64 = AtomicU64::new(0);
 pub static CUT_SEL: AtomicU64 = AtomicU64::new(0);
@@ -240,7 +243,11 @@ pub unsafe extern "C" fn write(fd: c_int, buf: *const c_void, n: size_t) -> ssiz
                 let sel = CUT_SEL.load(Ordering::Relaxed);
                 let lines: Vec<usize> = bytes.iter().enumerate().filter(|(i, b)| **b == b'\n' && *i + 1 < n).map(|(i, _)| i + 1).collect();
                 let keep = if sel % 2 == 0 && !lines.is_empty() { lines[((sel >> 1) % lines.len() as u64) as usize] } else { 1 + ((sel >> 1) % (n as u64 - 1)) as usize };
-                FAIL_AT.store(COUNT.load(Ordering::SeqCst), Ordering::SeqCst);
+                if FAIL_SHORT_NO_ERROR.load(Ordering::SeqCst) {
+                    FAIL_AT.store(u64::MAX - 1, Ordering::SeqCst);
+                } else {
+                    FAIL_AT.store(COUNT.load(Ordering::SeqCst), Ordering::SeqCst);
+                }
                 let f = real!("write", extern "C" fn(c_int, *const c_void, size_t) -> ssize_t);
                 let r = f(fd, buf, keep);
                 refresh(fd, false);
